@@ -141,8 +141,11 @@ int c_ensrank(double eps, int nval, int ncol, double* sim, \
             F = (sumrank-(ncold+1)*ncold/2)/ncold/ncold;
             fmat[i1*nval+i2] = F;
 
-            /* Compute ranks as per Equation (2) in Weigel and Mason, 2011 */
-            u = F<0.5-1e-8 ? 0. : F>0.5+1e-8 ? 1. : 0.5;
+            /* Compute ranks as per Equation (2) in Weigel and Mason, 2011.
+             * F is a multiple of 1/(2 ncol^2) and is exactly 0.5 when the two
+             * ensembles tie, so it is compared with 0.5 without a tolerance
+             * (1e-8 is wider than the step of F once ncol > 7071) */
+            u = F<0.5 ? 0. : F>0.5 ? 1. : 0.5;
             ranks[i1] += u;
             ranks[i2] += 1.-u;
         }
